@@ -159,6 +159,12 @@ func (sm *Subscriptions) ProcessWhen(activated, deactivated S) []chan struct{} {
 				// update index: mark as inactive
 				binding.States[s] = false
 			}
+		}
+	}
+
+	// check for matches only after all the changes have been applied
+	for _, s := range all {
+		for _, binding := range slices.Clone(sm.when[s]) {
 
 			// if not all matched, ignore for now
 			expired := binding.Ctx != nil && binding.Ctx.Err() != nil
